@@ -293,8 +293,10 @@ protected:
         terminal(node->attributeKeyword(), node);
         terminal(node->openOuterParenthesisToken(), node);
         terminal(node->openInnerParenthesisToken(), node);
-        for (auto iter = node->attributes(); iter; iter = iter->next)
+        for (auto iter = node->attributes(); iter; iter = iter->next) {
             nonterminal(iter->value);
+            terminal(iter->delimiterToken(), node);
+        }
         terminal(node->closeInnerParenthesisToken(), node);
         terminal(node->closeOuterParenthesisToken(), node);
         return Action::Skip;
